@@ -427,6 +427,12 @@ class VC:
             return self.alloc(P, VList(z3.K(I, z3.IntVal(0)), 1, kind='none'))
         raise OutsideSubset('list literal of non-ints')
 
+    def _entails(self, P, fact):
+        """cheap syntactic-level simplification aid: does the path condition entail fact? (only used to keep terms small; unknown -> False)"""
+        sv = z3.Solver(); sv.set('timeout', 300)
+        sv.add(*[zbool(c) for c in P.pc]); sv.add(z3.Not(zbool(fact)))
+        return sv.check() == z3.unsat
+
     def alloc(self, P, obj, name=''):
         r = Ref(name); P.heap[r.id] = obj; return r
 
@@ -542,7 +548,10 @@ class VC:
         if isinstance(v, VList):
             n = v.n
             hi = n if hi is None else hi
-            self.oblige(f'slice-bounds@{line}', P, And(0 <= lo, lo <= hi, hi <= n), line=line)
+            # Python clamps slice bounds at len; negative bounds (counted from the end) are not modelled: obligation
+            self.oblige(f'slice-bounds@{line}', P, And(0 <= lo, 0 <= hi), line=line)
+            if not z3.is_true(z3.simplify(zbool(And(lo <= hi, hi <= n)))) and not self._entails(P, And(lo <= hi, hi <= n)):
+                hi = If(hi <= n, hi, n); lo = If(lo <= hi, lo, hi)
             j = z3.Int('j!sl')
             return self.alloc(P, VList(z3.Lambda([j], v.arr[j + lo]), hi - lo, v.kind))      # a slice is a new list object
         raise OutsideSubset('slice of ' + repr(v))
